@@ -22,12 +22,15 @@ type PoolResult struct {
 	Stderr   string
 }
 
+// AnswerPrefix marks a worker's answer line; other stdout lines are ignored.
+const AnswerPrefix = "@@ANSWER "
+
 // JobTimeout is the per-job watchdog of Pool. A job that exceeds it gets its worker killed with SIGQUIT (so the
 // goroutine dump lands in Stderr) and is reported with Died and TimedOut set.
 var JobTimeout = 300 * time.Second
 
 // Pool runs jobs on n long-lived worker processes (vcheck worker <name> args...). Protocol: one job per stdin line, exactly
-// one answer line per job on stdout (lines starting with '#' are ignored). A worker that dies is restarted for the
+// one answer line per job on stdout, marked with AnswerPrefix (other lines are ignored). A worker that dies is restarted for the
 // remaining jobs; the job it died on is reported with Died=true.
 func Pool(name string, args []string, n int, jobs []string, env ...string) []PoolResult {
 	res := make([]PoolResult, len(jobs))
@@ -81,9 +84,11 @@ func Pool(name string, args []string, n int, jobs []string, env ...string) []Poo
 					})
 					for {
 						line, err = rd.ReadString('\n')
-						if err != nil || !strings.HasPrefix(line, "#") {
+						if err != nil || strings.HasPrefix(line, AnswerPrefix) {
+							line = strings.TrimPrefix(line, AnswerPrefix)
 							break
 						}
+						// anything else on stdout (the code under test prints there occasionally) is ignored
 					}
 					wd.Stop()
 					if err != nil {
@@ -114,7 +119,7 @@ func ServeJobs(f func(job string) string) int {
 		line, err := rd.ReadString('\n')
 		if line = strings.TrimRight(line, "\n"); line != "" {
 			out := strings.ReplaceAll(f(line), "\n", " ")
-			w.WriteString(out + "\n")
+			w.WriteString(AnswerPrefix + out + "\n")
 			w.Flush()
 		}
 		if err != nil {
